@@ -721,6 +721,52 @@ func genC04(c *Ctx) {
 		}
 	}
 
+	// operands whose scales lie far apart (the sum has to be formed at the smaller exponent), and numbers written as strings in
+	// exponent notation with more digits than a float64 holds: every function, operands as decimals, as strings and as literals
+	{
+		spreads := around([]int{15, 16, 17, 18, 19, 20, 30, 38, 39, 63, 64, 65, 70, 100, 127, 128, 129, 200, 308, 309, 400}, 2000)
+		coefs := []string{"1", "7", "25", "123456789", "9007199254740993", "12345678901234567891"}
+		for si, sp := range spreads {
+			for ci, co := range coefs {
+				if (si+ci)%2 == 1 && !c.thorough() {
+					continue
+				}
+				big1 := c04Num{new(big.Int), sp}
+				big1.coef.SetString(co, 10)
+				small := c04Parse([]string{"1", "7", "2.5e-30", "-3", "0.001"}[(si+ci)%5])
+				neg := c04Num{new(big.Int).Neg(big1.coef), big1.exp}
+				toDec := func(x c04Num) decimal.Decimal { return decimal.NewFromBigInt(x.coef, int32(x.exp)) }
+				for oi, ops := range [][]c04Num{{big1, small}, {small, big1}, {big1, small, neg}, {small, big1, small}} {
+					var tvsDec, tvsStr []*TV
+					var rats []*big.Rat
+					for _, x := range ops {
+						tvsDec = append(tvsDec, tvDec(toDec(x)))
+						tvsStr = append(tvsStr, tvStr(x.expForm()))
+						rats = append(rats, x.rat())
+					}
+					d := tvMap("str", [][2]any{{hx("xs"), tvSlice(1, tvsDec...)}, {hx("ss"), tvSlice(1, tvsStr...)}, {hx("a"), tvsDec[0]}, {hx("b"), tvsDec[1]}, {hx("as"), tvsStr[0]}, {hx("bs"), tvsStr[1]}})
+					for _, fn := range c04Aggr {
+						if fn == "Average" && sp > 400 {
+							continue
+						}
+						c04Check(c, fn, "$.xs."+fn+"()", d, c04AggExact(fn, rats), "scale-spread/collection/"+fn)
+						if oi < 2 {
+							c04Check(c, fn, "$.ss."+fn+"()", d, c04AggExact(fn, rats), "scale-spread/collection-of-strings/"+fn)
+							c04Check(c, fn, "$.a."+fn+"($.b)", d, c04AggExact(fn, rats), "scale-spread/receiver+argument/"+fn)
+							c04Check(c, fn, "$.as."+fn+"(\""+ops[1].expForm()+"\")", d, c04AggExact(fn, rats), "scale-spread/strings/"+fn)
+						}
+					}
+					if oi < 2 {
+						for _, fn := range []string{"Add", "Subtract", "Multiply"} {
+							c04Check(c, fn, "$.a."+fn+"($.b)", d, c04Exact2(fn, rats[0], rats[1]), "scale-spread/binary/"+fn)
+							c04Check(c, fn, "$.as."+fn+"($.bs)", d, c04Exact2(fn, rats[0], rats[1]), "scale-spread/binary-strings/"+fn)
+						}
+					}
+				}
+			}
+		}
+	}
+
 	// pairs × functions × ways
 	k := 0
 	for _, a := range grid {
